@@ -20,7 +20,7 @@ CHECKS = {
  "C05": ("property-based stress under the Go race detector (rapid-generated goroutine plans, start barrier) with a sequential differential oracle",
          "2-8 goroutines share one *Expr (Select / Evaluate / Compile of the same text / regex functions / two interleaved iterators); the race detector's log must not grow, the process must survive (crash journal) and every result must equal the sequential one. Exploration with sampled schedules is what this technique can give; interleavings are not enumerated.", "Schedules are sampled; a race needing a rare window can be missed. Trusts the Go race detector.", "DESIGN.md section 4 C05"),
  "C06": ("property-based testing with byte-level mutation (rapid) + bounded-exhaustive deep-nesting cases run with a crash journal + native coverage-guided fuzzing (thorough)",
-         "Valid/unconstrained/soup expressions with 0-3 byte- or token-level mutations under every namespace configuration; every recursive grammar construct nested to 10^5 (8 MB stack) / 3*10^6 (default stack); alternations of two constructs at depths 2..198 (compile cost must stay polynomial, watchdog); N completed constructs followed by N+250 levels of nesting (depth accounting); go-fuzz in the thorough tier; Compile returns exactly one of (expr, err), nothing panics, the process survives, MustCompile is usable." + EXPL, "Termination is decided within an explicit wall-clock margin with an isolated retry.", "DESIGN.md section 4 C06"),
+         "Valid/unconstrained/soup expressions with 0-3 byte- or token-level mutations under every namespace configuration; every recursive grammar construct nested to 10^5 (8 MB stack) / 3*10^6 (default stack); alternations of two constructs at depths 2..198 (compile cost must stay polynomial, watchdog); N completed constructs followed by N+250 levels of nesting (depth accounting); every segment of <= 3 lexical chunks repeated 40x (sibling repetition, decided by an allocation budget); every string of <= 3 hostile bytes; go-fuzz in the thorough tier; Compile returns exactly one of (expr, err), nothing panics, the process survives, MustCompile is usable." + EXPL, "Termination is decided within an explicit wall-clock margin with an isolated retry, and for repeated sibling constructs by an allocation budget.", "DESIGN.md section 4 C06"),
  "C07": ("property-based differential testing (rapid) against a reference evaluator",
          "Exactly the operand-type matrix of the statement over documents with numeric, non-numeric, empty and mixed values (incl. NaN/Infinity operands, large node-sets and observable short-circuit), plus the complete enumeration of the matrix over fixed operand lists; Evaluate and the predicate form must equal the reference; no panic." + EXPL, REF, "DESIGN.md section 4 C07"),
  "C08": ("property-based differential testing (rapid) against a reference evaluator with exact float comparison",
